@@ -108,15 +108,20 @@ def fallback_search(pid, h, res):
     bounded stand-in: run the native differential battery of the harness' replay program against the
     current code.  Returns a replay path if the real code violates the specification on a concrete
     input, else None (the harness stays UNDECIDED)."""
-    if not h.replay:
-        return None
-    work, exe, cmdline = build_native(h.replay[0], h.defines)
-    if exe is None:
-        return None
-    try:
-        rc, out = run_native(exe, h.replay[1], ['--search'])
-    finally:
-        shutil.rmtree(work, ignore_errors=True)
+    rc, out, cmdline, used = None, None, None, None
+    for cand in (h.replay, getattr(h, 'fallback', None)):
+        if not cand:
+            continue
+        work, exe, cmdline = build_native(cand[0], h.defines)
+        if exe is None:
+            continue  # e.g. the helper's signature changed: the family battery no longer compiles
+        try:
+            rc, out = run_native(exe, cand[1], ['--search'])
+        finally:
+            shutil.rmtree(work, ignore_errors=True)
+        used = cand
+        if rc == 1:
+            break
     if rc != 1:
         return None
     os.makedirs(os.path.join(VERIF, 'replays'), exist_ok=True)
@@ -129,7 +134,7 @@ def fallback_search(pid, h, res):
            'note': 'The contract anchors no longer match the function (renamed / restructured loops), so the '
                    'deductive check is undecided; the bounded native battery of the replay program found a concrete '
                    'input on which the real code violates the specification.',
-           'replay': {'native_build': cmdline, 'mode': h.replay[1], 'args': ['--search'], 'rc': rc, 'output': out,
+           'replay': {'native_build': cmdline, 'file': used[0], 'mode': used[1], 'args': ['--search'], 'rc': rc, 'output': out,
                       'search_args': mo.group(1).split() if mo else None},
            'reproduced': True, 'witness_source': 'native-search (bounded fallback)',
            'replay_cmd': './check %s --replay %s' % (pid, path)}
@@ -147,14 +152,17 @@ def replay_file(path):
         print('unknown harness %s' % rec['harness'])
         return 2
     h = hs[0]
-    if rec.get('reproduced') and h.replay:
-        work, exe, cmdline = build_native(h.replay[0], h.defines)
+    rp = rec.get('replay') or {}
+    src = rp.get('file') or (h.replay[0] if h.replay else None)
+    mode = rp.get('mode') or (h.replay[1] if h.replay else None)
+    if rec.get('reproduced') and src:
+        work, exe, cmdline = build_native(src, h.defines)
         if exe is None:
             print('native replay did not build: %s' % cmdline)
             return 2
         try:
-            args = rec['replay'].get('search_args') or rec['replay']['args']
-            rc, out = run_native(exe, h.replay[1], args)
+            args = rp.get('search_args') or rp.get('args') or []
+            rc, out = run_native(exe, mode, args)
         finally:
             shutil.rmtree(work, ignore_errors=True)
         print(out)
